@@ -95,8 +95,8 @@ def check_bounds(bounds, shape=0, min_separation=0.0, dtype=float):
         lower = np.ravel(lower).astype(dtype)
         upper = np.ravel(upper).astype(dtype)
     else:
-        lower = np.asarray(lower, dtype=dtype)
-        upper = np.asarray(upper, dtype=dtype)
+        lower = np.array(lower, dtype=dtype)  # copies: min_separation below is enforced in place
+        upper = np.array(upper, dtype=dtype)
 
     if lower.shape != upper.shape:
         raise ValueError("lower and upper bounds must be the same shape array")
